@@ -937,7 +937,8 @@ class Element(object):
                             if not any(c is old for old in old_children.list):  # the previous children stay attached
                                 c._parent = None
                         super(Element, self).__setattr__(name, old_children)
-                        for c, previous_parent, position in taken:  # and the ones taken from another parent go back
+                        # and the ones taken from another parent go back, the lower positions first
+                        for c, previous_parent, position in sorted(taken, key=lambda t: t[2]):
                             if c._parent is None:
                                 previous_parent.children.insert(position, c)
                         if last_child_index is not None:  # open-ended segments count the fields they hold
